@@ -264,6 +264,73 @@ def serverBinderOk (F : Bytes → Bytes) (received : Bytes) (binders : List Byte
   | [] => false
   | b0 :: _ => F (received.take (received.length - (2 + Ext.vec8sLen binders))) == b0
 
+/-! ## Rebuilds: `BuildHandshakeState` may run several times before (and always once in) `Handshake`
+
+With the PSK set, every `buildHandshakeState(true)` re-marshals the hello (the extension writes its
+*current* binders — after the first build the previously patched ones, no longer the zero
+placeholder) and then `uApplyPatch` runs `PatchBuiltHello` again whenever
+`shouldUpdateBinders()` (state `PskExtInitialized` **or** `PskExtAllSet`). Between builds the
+caller may edit the hello (`SetClientRandom`, `SetSNI`, an extension field): such an edit changes
+the bytes before the binders block. -/
+
+inductive PskState where
+  | initialized | allSet
+  deriving DecidableEq, Repr
+
+/-- `sessionController.shouldUpdateBinders` for a controller that owns a PSK extension. -/
+def shouldUpdateBinders : PskState → Bool
+  | .initialized => true
+  | .allSet => true
+
+/-- the built state of a connection whose PSK is set. -/
+structure Built where
+  /-- the marshalled hello up to the binders block, as the current hello fields give it -/
+  head : Bytes
+  /-- `e.Binders[0]` of the PSK extension -/
+  binder : Bytes
+  /-- `Hello.Raw` -/
+  raw : Bytes
+  st : PskState
+  /-- `PatchBuiltHello` calls so far -/
+  patches : Nat
+  deriving Repr
+
+inductive PreOp where
+  | build
+  /-- a documented edit: changes the hello bytes before the binders block -/
+  | edit (f : Bytes → Bytes)
+
+def PreOp.isBuild : PreOp → Bool
+  | .build => true
+  | .edit _ => false
+
+/-- `BuildHandshakeState` calls among the pre-handshake calls. -/
+def nBuilds (ops : List PreOp) : Nat := (ops.filter PreOp.isBuild).length
+
+/-- one `BuildHandshakeState` with the PSK set: marshal with the current binders, patch if
+`shouldUpdateBinders`, `setPskToUConn` (state `PskExtAllSet`). -/
+def buildStep (F : Bytes → Bytes) (b : Built) : Built :=
+  let raw0 := b.head ++ bindersBlock [b.binder]
+  if shouldUpdateBinders b.st then
+    match patchBinders F raw0 [b.binder] with
+    | .ok r =>
+      { b with raw := r, binder := F (raw0.take (raw0.length - (2 + Ext.vec8sLen [b.binder]))), st := .allSet,
+               patches := b.patches + 1 }
+    | .error _ => { b with raw := raw0, st := .allSet, patches := b.patches + 1 }   -- (`updateBinders` drops the error)
+  else { b with raw := raw0 }
+
+def preStep (F : Bytes → Bytes) (b : Built) : PreOp → Built
+  | .build => buildStep F b
+  | .edit f => { b with head := f b.head }
+
+/-- after `uLoadSession` initialised the extension: zero placeholder, nothing marshalled yet. -/
+def builtInit (head : Bytes) (hs : Nat) : Built :=
+  { head := head, binder := zeros hs, raw := [], st := .initialized, patches := 0 }
+
+/-- the bytes `Handshake` sends after the caller's pre-handshake calls: it always builds once more. -/
+def sentAfter (F : Bytes → Bytes) (b0 : Built) (ops : List PreOp) : Built :=
+  buildStep F (ops.foldl (preStep F) b0)
+
 /-! ## HelloRetryRequest, PSK part -/
 
 inductive HrrPsk where
